@@ -386,6 +386,12 @@ def run(ctx):
             check_hash(ctx, c.module, c, c.name)
     ctx.count("classes_in_Individual_hierarchy", len(classes))
     ctx.count("eq_definitions", n_eq)
+    # set-based de-duplication "never discards a distinct design": the de-duplication of the truncation step must go
+    # through equality AND hash (a set, or a dictionary keyed by the design or its coordinate tuple), never through the hash alone
+    ctx.rule("R6", "the de-duplication in nondominated_truncate identifies designs by equality, not by a coarser key")
+    from . import c03
+    from .c18 import SubCtx
+    c03.r2_truncate(SubCtx(ctx, "R6", prefix="de-duplication: "), repo)
     # R5 evidence: relying sites
     sites = []
     for m in repo.modules.values():
